@@ -64,7 +64,7 @@ TWIN = {n: getattr(optree, n).__python_implementation__ for n in PAIRS}
 STRUCTSEQS = [time.struct_time, type(sys.float_info), type(sys.version_info), os.stat_result, type(sys.flags), os.terminal_size,
               type(sys.hash_info), type(sys.thread_info), type(sys.int_info), os.times_result]
 
-SHAPES = ('fields_tuplesub', 'fields_namedtuple_inst', 'nfields_intsub', 'nt', 'nt_typing', 'nt_sub', 'nt_subsub', 'nt_empty', 'fields_list', 'fields_nonstr', 'fields_strsub', 'no_make',
+SHAPES = ('desc_fields', 'fields_tuplesub', 'fields_namedtuple_inst', 'nfields_intsub', 'nt', 'nt_typing', 'nt_sub', 'nt_subsub', 'nt_empty', 'fields_list', 'fields_nonstr', 'fields_strsub', 'no_make',
           'no_asdict', 'make_noncallable', 'not_tuple', 'tuple_plain', 'tuple_nfields', 'tuple_nfields_bool', 'meta_fields',
           'meta_none', 'plain')
 
@@ -104,6 +104,16 @@ def warmup():
 
 class StrSub(str):
     pass
+
+
+class ClassDescriptor:
+    """non-data descriptor: `cls._fields` is computed on access"""
+
+    def __init__(self, value):
+        self.value = value
+
+    def __get__(self, obj, owner):
+        return self.value
 
 
 class TupleSub(tuple):
@@ -151,6 +161,8 @@ def make_class(shape, n):
         c = type(name, (tuple,), dict(base_attrs, _fields=('a', 1)))
     elif shape == 'fields_strsub':
         c = type(name, (tuple,), dict(base_attrs, _fields=('a', StrSub('b'))))
+    elif shape == 'desc_fields':
+        c = type(name, (tuple,), dict(base_attrs, _fields=ClassDescriptor(('a', 'b'))))
     elif shape == 'fields_tuplesub':
         c = type(name, (tuple,), dict(base_attrs, _fields=TupleSub(('a', 'b'))))
     elif shape == 'fields_namedtuple_inst':
@@ -638,6 +650,20 @@ def onelevel(tape, viol, keys, probes, oplog):
             one = optree.tree_flatten_one_level(tree, **kw)
         except ValueError:
             one = None
+        # the is_leaf predicate must be honoured the same way: a root declared a leaf cannot be flattened one level
+        try:
+            optree.tree_flatten_one_level(tree, is_leaf=lambda x: x is tree, **kw)
+            viol('twin-disagree', 'one-level:is_leaf', 'tree_flatten_one_level flattened a %s although is_leaf says it is a leaf' % type(tree).__name__)
+        except ValueError:
+            if not optree.tree_structure(tree, is_leaf=lambda x: x is tree, **kw).is_leaf():
+                viol('twin-disagree', 'one-level:is_leaf', 'engine does not treat the root as a leaf under is_leaf')
+        try:
+            with_pred = optree.tree_flatten_one_level(tree, is_leaf=lambda x: False, **kw)
+            if one is None or list(with_pred[0]) != list(one[0]):
+                viol('twin-disagree', 'one-level:is_leaf', 'an always-False is_leaf changes tree_flatten_one_level of a %s' % type(tree).__name__)
+        except ValueError:
+            if one is not None:
+                viol('twin-disagree', 'one-level:is_leaf', 'an always-False is_leaf makes tree_flatten_one_level reject a %s' % type(tree).__name__)
         kind = spec.kind
         keys.add('onelevel|%s|%s|%s|%s' % (type(tree).__name__, ns, nil, mode))
         if one is None:
